@@ -161,7 +161,9 @@ Section FrameCodec.
     m <- mc_decode mc (h_Version h) (h_OpCode h) ;;
     ret {| bd_TracingId := tr; bd_CustomPayload := cp; bd_Warnings := wa; bd_Message := m |}.
 
-  (* DecodeBody: a compressed body is cut out of the source by io.LimitReader(source, BodyLength) *)
+  (* DecodeBody: the body is cut out of the source by a reader limited to BodyLength bytes (a compressed body is
+     decompressed from it; an uncompressed one is decoded from it and what the message does not use is skipped,
+     which fails when the source ends before the declared length) *)
   Definition decode_body (h : Header) : R Body :=
     if has (h_Flags h) HeaderFlagCompressed then
       match comp with
@@ -178,7 +180,13 @@ Section FrameCodec.
                 end
             end
       end
-    else decode_body_parts h.
+    else
+      fun bs =>
+        let n := if h_BodyLength h <? 0 then 0%nat else Z.to_nat (Z.min (h_BodyLength h) (zlen bs)) in
+        match decode_body_parts h (firstn n bs) with
+        | DOk b _ => if h_BodyLength h <=? zlen bs then DOk b (skipn n bs) else DErr
+        | DErr => DErr | DPanic => DPanic | DFuel => DFuel
+        end.
 
   Definition decode_frame : R Frame :=
     h <- decode_header ;; b <- decode_body h ;; ret {| f_Header := h; f_Body := b |}.
